@@ -29,13 +29,21 @@ RULE = ("actset: all vectors over {0,1,2} (and shifted/scaled variants) of lengt
         "small-integer vectors with ties of every length up to 12, random longer float vectors; fraction grid "
         "(k+1/2)/n, dyadic fractions and random ones so that rounded counts hit 0, 1, n-1; scaling: histories of 2-10 calls; "
         "response: 3 aggregations x both parameter signs x optional active set x optional scaling (damping 0, dyadic, random, 1) "
-        "x histories of 1-10 calls on positive data of length 1..12 and longer. distinct = distinct case keys whose "
+        "x histories of 1-10 calls on positive data of length 1..12 and longer; extreme: the same modules with |param|*(max-min) "
+        "stratified log-uniformly over [1e-3, 5e3] (SoftMinMax; KS/PNorm as far as the as-coded formulas stay finite) on data in "
+        "[2,900], [1,2], [1e-3,1], [0.9,1.1], both signs, with/without active set and scaling. distinct = distinct case keys whose "
         "mask is not Ellipsis / whose history is non-empty")
 ASSUMPTIONS = [
     "np.argsort contract: returns a permutation that sorts ascending (checked at run time on every case; the tie order "
     "actually produced by numpy is passed to the model)",
-    "bounds and the response stream use positive data (the property's hypothesis); |param * x| is kept below 300 so that "
-    "exp does not overflow in the unshifted KS sum",
+    "bounds and the response / extreme streams use positive data (the property's hypothesis)",
+    "extreme stream: SoftMinMax is exercised without restriction (|alpha|*(max-min) log-uniform in [1e-3, 5e3], both signs); "
+    "KSFunction and PNorm are exercised only where the AS-CODED formulas stay finite and normal in float64, because "
+    "np.exp(rho*x) and x**p overflow/underflow in the real code beyond that: KS requires for every call "
+    "rho*max(x) + ln(n) <= 700 if rho > 0, and |rho|*min(x) <= 700 (no active set) or |rho|*max(x) <= 700 (with active set) "
+    "if rho < 0; PNorm requires with L = max|ln x_i|: ln(n) + |p|*L <= 600, ln(n)/|p| + L <= 600 and "
+    "(ln(n) + |p|*L)*(1 + 1/|p|) <= 700. Candidates outside are rejected and counted in the branch histogram "
+    "(extreme.skipped_as_coded_nonfinite.<kind>) and in the evidence notes",
     "python warnings (PNorm on negative data, log(0)) are not observables",
 ]
 
@@ -467,7 +475,15 @@ def bounds_violation(kind, param, xa, v):
             lo, hi = mn, min(mx, mn - math.log(n) / param)
         else:
             lo, hi = mn, mx
-    if not (lo - tol(lo) <= v <= hi + tol(hi)):
+    # conditioning of the AS-CODED float formulas (not of the property): log(sum)/rho carries an absolute error of about
+    # eps*(1+|log sum|)/|rho|, (sum)**(1/p) a relative error of about eps*(n + |ln sum|)/|p|
+    extra = 0.0
+    if kind == "ks":
+        extra = 1e-14 * (1.0 + math.log(n) + abs(param) * mx) / abs(param)
+    elif kind == "pnorm":
+        L = max(abs(math.log(w)) for w in xa)
+        extra = (2e-15 * n / min(1.0, abs(param)) + 1e-15 * (math.log(n) / abs(param) + L)) * max(abs(lo), abs(hi))
+    if not (lo - tol(lo) - extra <= v <= hi + tol(hi) + extra):
         return f"{kind}({param}) = {v!r} outside [{lo!r}, {hi!r}] for active entries {xa}"
     return None
 
@@ -556,6 +572,123 @@ def response_cases(ctx):
         yield kind, param, aset, scal, calls
 
 
+# ------------------------------------------------------------------------------------------------
+# extreme scales: |param| * (max - min) from 1e-3 up to 5e3
+# ------------------------------------------------------------------------------------------------
+EXTREME_FAMILIES = {"wide": (2.0, 900.0), "unit": (1.0, 2.0), "nearzero": (1e-3, 1.0), "narrow": (0.9, 1.1)}
+
+
+def as_coded_finite(kind, param, aset, x):
+    """the exact bound (see ASSUMPTIONS) inside which np.exp(rho*x) / x**p of the REAL code stay finite and normal"""
+    n = len(x)
+    if n == 0 or min(x) <= 0:
+        return False
+    if kind == "softminmax":
+        return True
+    if kind == "ks":
+        if param > 0:
+            return param * max(x) + math.log(n) <= 700
+        ref = max(x) if aset is not None else min(x)
+        return abs(param) * ref <= 700
+    L = max(abs(math.log(v)) for v in x)
+    ap = abs(param)
+    ln = math.log(n)
+    return ln + ap * L <= 600 and ln / ap + L <= 600 and (ln + ap * L) * (1 + 1 / ap) <= 700
+
+
+def extreme_data(ctx, fam, n):
+    lo, hi = EXTREME_FAMILIES[fam]
+    t = ctx.rng.random()
+    if t < 0.2 and fam != "nearzero":
+        x = [float(ctx.rng.choice([lo, hi, (lo + hi) / 2])) for _ in range(n)]       # ties at the ends
+    elif t < 0.5:
+        x = [math.exp(ctx.rng.uniform(math.log(lo), math.log(hi))) for _ in range(n)]
+    else:
+        x = [ctx.rng.uniform(lo, hi) for _ in range(n)]
+    if n >= 2 and ctx.rng.random() < 0.6:     # make sure the whole range is present
+        i, j = ctx.rng.sample(range(n), 2)
+        x[i], x[j] = lo, hi
+    return x
+
+
+def extreme_fixed_cases():
+    wide = [2.0, 900.0, 450.0, 17.5, 899.0, 3.0]
+    unit = [1.0, 2.0, 1.5, 1.25, 1.999, 1.001, 2.0]
+    for alpha in (-1.0, 1.0, -5.0, 5.0):
+        yield "softminmax", alpha, None, None, [(wide, 1.0), (wide[::-1], -2.0)]
+        yield "softminmax", alpha, None, ("min" if alpha < 0 else "max", 0.0), [(wide, 1.0), (wide[:3], 0.5)]
+        yield "softminmax", alpha, (0.0, 1.0, 0.0, 0.7) if alpha > 0 else (0.0, 1.0, 0.3, 1.0), \
+            ("min" if alpha < 0 else "max", 0.5), [(wide, 1.0), (wide[::-1], 1.0), (wide, None)]
+    for alpha in (-1000.0, 1000.0, -5000.0, 5000.0, -750.0, 750.0):
+        yield "softminmax", alpha, None, None, [(unit, 1.0)]
+        yield "softminmax", alpha, (0.0, 0.9, 0.2, 1.0), ("min" if alpha < 0 else "max", 0.0), [(unit, 2.0), (unit[::-1], 1.0)]
+    for rho in (-300.0, -5.0, 0.75, -0.75):
+        yield "ks", rho, None, None, [(wide, 1.0)]
+        yield "ks", rho, None, ("min" if rho < 0 else "max", 0.0), [(wide, 1.0), (wide[:4], -1.0)]
+    for p in (-90.0, 90.0, 0.01, -0.01):
+        yield "pnorm", p, None, None, [(wide, 1.0)]
+        yield "pnorm", p, (0.0, 1.0, 0.2, 0.8), ("min" if p < 0 else "max", 0.25), [(wide, 1.0), (wide[::-1], 1.0)]
+
+
+def extreme_cases(ctx):
+    for c in extreme_fixed_cases():
+        yield c
+    reps = 2 if ctx.quick else 30
+    nbins = 9
+    edges = [-3.0 + (math.log10(5e3) + 3.0) * b / nbins for b in range(nbins + 1)]
+    t = 0
+    for _ in range(reps):
+        for kind in ("softminmax", "ks", "pnorm"):
+            for sign in (1, -1):
+                for b in range(nbins):
+                    t += 1
+                    made = False
+                    for attempt in range(12):
+                        target = 10.0 ** ctx.rng.uniform(edges[b], edges[b + 1])
+                        if kind == "pnorm":
+                            fam = ctx.rng.choice(["wide", "unit", "narrow", "nearzero"])
+                        elif kind == "ks":
+                            fam = ctx.rng.choice(["wide", "unit", "nearzero"])
+                        else:
+                            fam = ctx.rng.choice(["wide", "wide", "unit", "nearzero"])
+                        aset = None
+                        if ctx.rng.random() < 0.4:
+                            aset = actset_configs(ctx, ctx.rng.randint(2, 12), 1)[0]
+                        ncalls = ctx.rng.randint(1, 4)
+                        calls = []
+                        for _c in range(ncalls):
+                            n = ctx.rng.randint(2, 12) if ctx.rng.random() < 0.85 else ctx.rng.randint(13, 40)
+                            x = extreme_data(ctx, fam, n)
+                            dfdy = ctx.rng.choice([1.0, -2.0, 0.5, ctx.rng.uniform(-3, 3)]) if ctx.rng.random() < 0.9 else None
+                            calls.append((x, dfdy))
+                        x0 = calls[0][0]
+                        spread = max(x0) - min(x0)
+                        if spread <= 0:
+                            lo, hi = EXTREME_FAMILIES[fam]
+                            spread = hi - lo
+                        # PNorm: the parameter itself is spread over [1e-2, 5e3] (its natural scale is p*ln x)
+                        mag = target / spread if kind != "pnorm" else max(1e-2, target)
+                        param = sign * mag
+                        if not all(as_coded_finite(kind, param, aset, x) for x, _d in calls):
+                            ctx.branch(f"extreme.skipped_as_coded_nonfinite.{kind}")
+                            EXTREME_SKIPS[kind] = EXTREME_SKIPS.get(kind, 0) + 1
+                            continue
+                        scal = None
+                        if ctx.rng.random() < 0.6:
+                            which = ("max" if sign > 0 else "min") if ctx.rng.random() < 0.9 else ("min" if sign > 0 else "max")
+                            scal = (which, ctx.rng.choice([0.0, 0.0, 0.5, 0.25, 1.0, ctx.rng.uniform(0, 1)]))
+                        prod = abs(param) * spread
+                        ctx.branch(f"extreme.{kind}.{'pos' if sign > 0 else 'neg'}.prod~1e{int(math.floor(math.log10(prod)))}")
+                        yield kind, param, aset, scal, calls
+                        made = True
+                        break
+                    if not made:
+                        ctx.branch(f"extreme.bin_infeasible.{kind}.{'pos' if sign > 0 else 'neg'}.bin{b}")
+
+
+EXTREME_SKIPS = {}
+
+
 def malformed_cases(ctx):
     x2 = [1.0, 2.0]
     yield "pnorm", 0, None, None, [(x2, 1.0)]
@@ -586,7 +719,7 @@ def _same_special(a, b):
     return a == b
 
 
-def compare_outs(ctx, stream, case, iouts, mouts, rtol, key):
+def compare_outs(ctx, stream, case, iouts, mouts, rtol, key, extra_atol=0.0):
     """True if all agree; registers exactly one agree/disagree"""
     if len(iouts) != len(mouts):
         ctx.disagree(stream, case, iouts, mouts, f"history length {len(iouts)} vs {len(mouts)}")
@@ -628,7 +761,7 @@ def compare_outs(ctx, stream, case, iouts, mouts, rtol, key):
             fi.append(a)
             fm.append(b)
     scale = max([1.0] + [abs(v) for v in fm])
-    return ctx.compare_close(stream, case, fi, fm, rtol=rtol, atol=1e-13, scale=scale, key=key)
+    return ctx.compare_close(stream, case, fi, fm, rtol=rtol, atol=1e-13 + extra_atol / scale, scale=scale, key=key)
 
 
 def run_response_stream(ctx, stream, gen, with_oracle):
@@ -673,8 +806,10 @@ def run_response_stream(ctx, stream, gen, with_oracle):
             if "dx" in o:
                 d["dx"] = o["dx"] if isinstance(o["dx"], dict) else dec(o["dx"])
             mouts.append(d)
-        ok = compare_outs(ctx, stream, case, outs, mouts, 1e-9, key)
         kind = case["kind"]
+        # libm vs numpy exp differ by an ulp; log(sum)/rho turns that into about eps/|rho| absolute
+        extra = 1e-14 / abs(case["param"]) if kind == "ks" and case["param"] != 0 else 0.0
+        ok = compare_outs(ctx, stream, case, outs, mouts, 1e-9, key, extra_atol=extra)
         ctx.branch(f"{stream}.{kind}.{'pos' if case['param'] > 0 else 'neg' if case['param'] < 0 else 'zero'}")
         if case["actset"]:
             ctx.branch(f"{stream}.with_actset")
@@ -721,6 +856,11 @@ def correspondence(ctx):
     stream_actset(ctx)
     stream_scaling(ctx)
     run_response_stream(ctx, "response", response_cases(ctx), True)
+    EXTREME_SKIPS.clear()
+    run_response_stream(ctx, "extreme", extreme_cases(ctx), True)
+    if EXTREME_SKIPS:
+        ctx.notes.append(f"extreme stream: candidates rejected because the as-coded np.exp(rho*x) / x**p would leave the "
+                         f"finite normal float64 range: {dict(EXTREME_SKIPS)}")
     run_response_stream(ctx, "malformed", malformed_cases(ctx), False)
     if not ctx.quick:
         selftest_sensitivity(ctx)
@@ -787,7 +927,7 @@ def search(ctx, disagreements):
             w = {"op": "actset", "cfg": c["cfg"], "x": c["x"]}
         elif st == "scaling":
             w = {"op": "scaling", **c}
-        elif st in ("response", "malformed"):
+        elif st in ("response", "malformed", "extreme"):
             w = {"op": "response", **c}
         else:
             continue
